@@ -5,7 +5,7 @@ cd "$(dirname "$0")"
 /venv/bin/python - <<'PY'
 import sys; sys.path.insert(0, 'harness')
 import framework, py2lean
-print(py2lean.regenerate(framework.REPO, framework.LEAN).keys())
+print(sorted(framework.regenerate_all().keys()))
 framework.generate_driver()
 PY
 cd lean
